@@ -196,6 +196,134 @@ theorem Sem.gend_iff {e : Env} {gno : Nat} {alts : List (List COp)} {mn mx c s :
     · exact Sem.more h1 h2 h3 h4 h5
     · exact Sem.exit h1 h2 h3
 
+/-! ## structured unfoldings of `match_group` and `match_gend` -/
+
+def newFrame (st : St) (gno : Nat) (alts : List (List COp)) (mn mx : Nat) (next : List COp) (str : Nat)
+    (gm : Option Nat) : Frame :=
+  match (match gm with
+      | some g => if (st.fr g).gno = gno then some (st.fr g) else none
+      | none => none : Option Frame) with
+  | some pf => { gno := gno, alts := alts, min := mn, max := mx, next := next, start := str,
+                 prev := st.stacks[gno]!, parent := pf.parent, count := pf.count + 1,
+                 minok := pf.minok || pf.end_ == some pf.start }
+  | none => { gno := gno, alts := alts, min := mn, max := mx, next := next, start := str,
+              prev := st.stacks[gno]!, parent := gm }
+
+def groupTail (cx : Cx) (f : Nat) (fr : Frame) (id gno : Nat) (next : List COp) (str mn : Nat)
+    (r : Nat × Bool × St) : Nat × St :=
+  let es : Nat × St :=
+    if mn = 0 ∧ fr.count = 0 ∧ (r.1 = NOMATCH ∨ (r.1 = 0 ∧ cx.strict)) then
+      doOps cx f next str fr.parent (r.2.2.setFr id { r.2.2.fr id with end_ := none })
+    else (r.1, r.2.2)
+  ((if r.2.1 ∧ es.1 ≠ OUT_OF_BUDGET ∧ es.1 ≠ OUT_OF_FUEL then 0 else es.1),
+   { es.2 with stacks := es.2.stacks.set! gno fr.prev })
+
+theorem matchGroup_eq (cx : Cx) (f gno : Nat) (alts : List (List COp)) (mn mx : Nat) (next : List COp) (str : Nat)
+    (gm : Option Nat) (st : St) :
+    matchGroup cx (f + 1) gno alts mn mx next str gm st =
+      groupTail cx f (newFrame st gno alts mn mx next str gm) st.frames.size gno next str mn
+        (if mx > 0 then
+          altLoop cx f alts str st.frames.size NOMATCH false
+            { st with frames := st.frames.push (newFrame st gno alts mn mx next str gm),
+                      stacks := st.stacks.set! gno (some st.frames.size) }
+         else (NOMATCH, false,
+            { st with frames := st.frames.push (newFrame st gno alts mn mx next str gm),
+                      stacks := st.stacks.set! gno (some st.frames.size) })) := by
+  rw [matchGroup.eq_def]
+  rfl
+
+def gendMore (fr : Frame) (str : Nat) : Bool :=
+  fr.count + 1 < fr.max && (!(str == fr.start) || (fr.count + 1 < fr.min && !fr.minok))
+
+def gendTail (cx : Cx) (f : Nat) (fr : Frame) (str : Nat) (more : Bool) (r : Nat × St) : Nat × St :=
+  let got := more && r.1 = 0 && cx.strict
+  if more && !got && r.1 ≠ NOMATCH then (r.1, r.2)
+  else if !(str == fr.start) && !fr.minok && fr.count + 1 < fr.min then (r.1, r.2)
+  else
+    match doOps cx f fr.next str fr.parent r.2 with
+    | (err2, st) => ((if err2 = NOMATCH ∧ got then 0 else err2), st)
+
+theorem matchGend_eq (cx : Cx) (f str g : Nat) (st : St) :
+    matchGend cx (f + 1) str g st =
+      (if (str == (st.fr g).start && decide ((st.fr g).count > 0) && decide ((st.fr g).count ≥ (st.fr g).min)) = true
+       then (NOMATCH, st)
+       else gendTail cx f (st.fr g) str (gendMore (st.fr g) str)
+         (if gendMore (st.fr g) str = true then
+            matchGroup cx f (st.fr g).gno (st.fr g).alts (st.fr g).min (st.fr g).max (st.fr g).next str (some g)
+              (st.setFr g { st.fr g with end_ := some str })
+          else (NOMATCH, st.setFr g { st.fr g with end_ := some str }))) := by
+  simp only [matchGend, gendTail, gendMore]
+  rfl
+
+theorem newFrame_enter (st : St) (gno : Nat) (alts : List (List COp)) (mn mx : Nat) (next : List COp) (str g : Nat)
+    (h : (st.fr g).gno ≠ gno) :
+    newFrame st gno alts mn mx next str (some g) =
+      { gno := gno, alts := alts, min := mn, max := mx, next := next, start := str, prev := st.stacks[gno]!,
+        parent := some g } := by
+  simp [newFrame, h]
+
+theorem newFrame_re (st : St) (alts : List (List COp)) (mn mx : Nat) (next : List COp) (str g : Nat) :
+    newFrame st (st.fr g).gno alts mn mx next str (some g) =
+      { gno := (st.fr g).gno, alts := alts, min := mn, max := mx, next := next, start := str,
+        prev := st.stacks[(st.fr g).gno]!, parent := (st.fr g).parent, count := (st.fr g).count + 1,
+        minok := (st.fr g).minok || (st.fr g).end_ == some (st.fr g).start } := by
+  simp [newFrame]
+
+theorem groupTail_noskip (cx : Cx) (f : Nat) (fr : Frame) (id gno : Nat) (next : List COp) (str mn e1 : Nat)
+    (got1 : Bool) (st2 : St) (h : mn ≠ 0 ∨ fr.count ≠ 0) :
+    groupTail cx f fr id gno next str mn (e1, got1, st2) =
+      ((if got1 = true ∧ e1 ≠ OUT_OF_BUDGET ∧ e1 ≠ OUT_OF_FUEL then 0 else e1),
+       { st2 with stacks := st2.stacks.set! gno fr.prev }) := by
+  have : ¬ (mn = 0 ∧ fr.count = 0 ∧ (e1 = NOMATCH ∨ (e1 = 0 ∧ cx.strict = true))) := by
+    rintro ⟨h1, h2, _⟩
+    rcases h with h | h
+    · exact h h1
+    · exact h h2
+  simp only [groupTail, this, if_false]
+
+theorem gendMore_iff (fr : Frame) (str : Nat) :
+    gendMore fr str = true ↔ fr.count + 1 < fr.max ∧ (str ≠ fr.start ∨ (fr.count + 1 < fr.min ∧ fr.minok = false)) := by
+  simp [gendMore]
+
+def gendNoExit (fr : Frame) (str : Nat) : Bool := !(str == fr.start) && !fr.minok && decide (fr.count + 1 < fr.min)
+
+theorem gendNoExit_iff (fr : Frame) (str : Nat) :
+    gendNoExit fr str = true ↔ ¬ (str = fr.start ∨ fr.minok = true ∨ fr.min ≤ fr.count + 1) := by
+  simp only [gendNoExit, Bool.and_eq_true, Bool.not_eq_true', beq_eq_false_iff_ne, ne_eq, decide_eq_true_eq]
+  constructor
+  · rintro ⟨⟨h1, h2⟩, h3⟩ (h | h | h)
+    · exact h1 h
+    · rw [h2] at h; cases h
+    · omega
+  · intro h
+    refine ⟨⟨fun hh => h (Or.inl hh), ?_⟩, ?_⟩
+    · cases hm : fr.minok with
+      | false => rfl
+      | true => exact absurd (Or.inr (Or.inl hm)) h
+    · apply Nat.lt_of_not_ge
+      intro hh
+      exact h (Or.inr (Or.inr hh))
+
+/-- `gendTail` after the "one more repeat" phase returned `(e1, st2)` with `more` as given -/
+theorem gendTail_eq (cx : Cx) (f : Nat) (fr : Frame) (str : Nat) (more : Bool) (e1 : Nat) (st2 : St) :
+    gendTail cx f fr str more (e1, st2) =
+      (if (more && !(more && decide (e1 = 0) && cx.strict) && decide (e1 ≠ NOMATCH)) = true then (e1, st2)
+       else if gendNoExit fr str = true then (e1, st2)
+       else ((if (doOps cx f fr.next str fr.parent st2).1 = NOMATCH ∧ (more && decide (e1 = 0) && cx.strict) = true then 0
+              else (doOps cx f fr.next str fr.parent st2).1), (doOps cx f fr.next str fr.parent st2).2)) := by
+  simp only [gendTail, gendNoExit]
+  rfl
+
+/-- a successful non-strict search also is a search of any larger set -/
+theorem Post2.widen {cx : Cx} {J : St → Prop} {P Q : Nat → Prop} {st st' : St}
+    (p : Post2 cx J P false st 0 st') (hs : cx.strict = false) (hPQ : ∀ j, P j → Q j) :
+    Post2 cx J Q false st 0 st' := by
+  obtain ⟨j0, hj0⟩ := (p.ok.mp rfl).resolve_left (by simp)
+  refine ⟨p.same, Or.inl rfl, by simp; exact ⟨j0, hPQ j0 hj0⟩, p.mono, (fun h => by rw [hs] at h; cases h), ?_, p.keepJ⟩
+  rcases p.attained with h | ⟨j, hj, h⟩
+  · exact Or.inl h
+  · exact Or.inr ⟨j, hPQ j hj, h⟩
+
 /-! ## the model explores exactly `Sem` -/
 
 theorem coreR (cx : Cx) (J : St → Prop) (g0 : Nat) (hJ : JOk cx g0 J) : ∀ f : Nat,
@@ -220,7 +348,7 @@ theorem coreR (cx : Cx) (J : St → Prop) (g0 : Nat) (hJ : JOk cx g0 J) : ∀ f 
     -- match_group re-entered from match_gend of frame `g` for one more repeat
     (∀ str g p K st err st', g < st.frames.size → (st.fr g).gno ≠ 0 → (st.fr g).parent = some p →
         (st.fr p).gno < (st.fr g).gno → (∀ a, a ∈ (st.fr g).alts → WFG (st.fr g).gno a) →
-        WFG (st.fr p).gno (st.fr g).next → ChainK g0 st p K → (st.fr g).end_ = some str →
+        WFG (st.fr p).gno (st.fr g).next → ChainK g0 st p K → (st.fr g).end_ = some str → 0 < (st.fr g).max →
         matchGroup cx f (st.fr g).gno (st.fr g).alts (st.fr g).min (st.fr g).max (st.fr g).next str (some g) st
           = (err, st') → Good err →
         Post2 cx J (fun j => ∃ a, a ∈ (st.fr g).alts ∧
@@ -260,7 +388,7 @@ theorem coreR (cx : Cx) (J : St → Prop) (g0 : Nat) (hJ : JOk cx g0 J) : ∀ f 
       simp only [matchGroup] at h
       obtain ⟨rfl, _⟩ := Prod.mk.inj h
       exact absurd rfl hg.2
-    · intro str g p K st err st' _ _ _ _ _ _ _ _ h hg
+    · intro str g p K st err st' _ _ _ _ _ _ _ _ _ h hg
       simp only [matchGroup] at h
       obtain ⟨rfl, _⟩ := Prod.mk.inj h
       exact absurd rfl hg.2
@@ -490,8 +618,166 @@ theorem coreR (cx : Cx) (J : St → Prop) (g0 : Nat) (hJ : JOk cx g0 J) : ∀ f 
                 · refine Or.inr ⟨k, hk1, by omega, ?_⟩
                   have : str - 1 - (cur - 1) + k = str - cur + k := by omega
                   rw [this]; exact hj
-    · sorry
-    · sorry
+    · -- match_group entered from an AND-list
+      intro gno alts mn mx rest str g K st err st' hlt halts hrest hch h hg
+      have hne : (st.fr g).gno ≠ gno := by omega
+      have hgno0 : gno ≠ 0 := by omega
+      rw [matchGroup_eq, newFrame_enter st gno alts mn mx rest str g hne] at h
+      obtain ⟨fr0, hfr0⟩ : ∃ fr0 : Frame, fr0 = { gno := gno, alts := alts, min := mn, max := mx, next := rest, start := str, prev := st.stacks[gno]!, parent := some g } := ⟨_, rfl⟩
+      rw [← hfr0] at h
+      obtain ⟨st1, hst1⟩ : ∃ s : St, s = { st with frames := st.frames.push fr0, stacks := st.stacks.set! gno (some st.frames.size) } := ⟨_, rfl⟩
+      rw [← hst1] at h
+      have he1 : Ext st st1 := by rw [hst1]; exact ext_push st fr0 gno hgno0
+      have hnew : st1.fr st.frames.size = fr0 := by rw [hst1]; exact fr_push_new st _ _
+      have hfg : st1.fr g = st.fr g := by rw [hst1]; exact fr_push_lt st _ _ g hch.lt
+      have hc0 : fr0.count = 0 := by rw [hfr0]
+      have hpar0 : fr0.parent = some g := by rw [hfr0]
+      have hk0 : kontOf fr0 K = .gend gno alts mn mx 0 str false rest K := by rw [hfr0]; rfl
+      have hch1 : ChainK g0 st1 st.frames.size (.gend gno alts mn mx 0 str false rest K) := by
+        have := ChainK.nest (g0 := g0) (st := st1) (g := st.frames.size) (p := g) (k := K)
+          (by rw [hst1]; simp) (by rw [hnew, hfr0]; exact hgno0) (by rw [hnew, hfr0])
+          (by rw [hnew, hfg, hfr0]; exact hlt) (by rw [hnew, hfr0]; exact halts)
+          (by rw [hnew, hfg, hfr0]; exact hrest) (hch.ext he1)
+        rw [hnew, hk0] at this
+        exact this
+      -- the alternatives
+      obtain ⟨e1, got1, st2, hr, pa, pc⟩ : ∃ e1 got1 st2,
+          (if mx > 0 then altLoop cx f alts str st.frames.size NOMATCH false st1 else (NOMATCH, false, st1)) = (e1, got1, st2) ∧
+          (Good e1 → Post2 cx J (fun j => 0 < mx ∧ ∃ a, a ∈ alts ∧
+              Sem cx.env a (.gend gno alts mn mx 0 str false rest K) str j) false st1 (if got1 then 0 else e1) st2) ∧
+          (Good e1 → (e1 = 0 ∨ e1 = NOMATCH) ∧ (e1 = 0 → cx.strict = true → got1 = true)) := by
+        by_cases hmx : mx > 0
+        · rw [if_pos hmx]
+          cases h1 : altLoop cx f alts str st.frames.size NOMATCH false st1 with
+          | mk e1 r1 =>
+            obtain ⟨got1, st2⟩ := r1
+            have hw : ∀ a, a ∈ alts → WFG (st1.fr st.frames.size).gno a := by
+              intro a ha; rw [hnew, hfr0]; exact halts a ha
+            refine ⟨e1, got1, st2, rfl, ?_, ?_⟩
+            · intro hge
+              have := iha alts str st.frames.size _ NOMATCH false st1 e1 got1 st2 hw hch1 (fun hh => by cases hh)
+                (Or.inl rfl) h1 hge
+              exact Post2.congr (fun j => by simp [hmx]) this
+            · intro hge
+              exact iha2 alts str st.frames.size _ NOMATCH false st1 e1 got1 st2 hw hch1 (Or.inl rfl) h1 hge
+        · rw [if_neg hmx]
+          refine ⟨NOMATCH, false, st1, rfl, ?_, ?_⟩
+          · intro _
+            simp only [Bool.false_eq_true, if_false]
+            exact Post2.none st1 (fun j hj => hmx hj.1)
+          · intro _
+            exact ⟨Or.inr rfl, fun h' => absurd h' (by decide)⟩
+      rw [hr] at h
+      simp only [groupTail] at h
+      refine Post2.congr (fun j => Sem.group_iff.symm) ?_
+      by_cases hskip : mn = 0 ∧ fr0.count = 0 ∧ (e1 = NOMATCH ∨ (e1 = 0 ∧ cx.strict = true))
+      · rw [if_pos hskip] at h
+        obtain ⟨st2', hst2'⟩ : ∃ s : St, s = st2.setFr st.frames.size { st2.fr st.frames.size with end_ := none } := ⟨_, rfl⟩
+        rw [← hst2', hpar0] at h
+        cases h2 : doOps cx f rest str (some g) st2' with
+        | mk e2 st3 =>
+          rw [h2] at h
+          simp only [] at h
+          obtain ⟨rfl, rfl⟩ := Prod.mk.inj h
+          have hge2 : Good e2 := good_of_final hg
+          have hge1 : Good e1 := by
+            rcases hskip.2.2 with h' | h'
+            · rw [h']; exact ⟨by decide, by decide⟩
+            · rw [h'.1]; exact ⟨by decide, by decide⟩
+          have pa' := pa hge1
+          have pc' := pc hge1
+          have k2 : Keeps st2 st2' := by rw [hst2']; exact keeps_setFr st2 _ _ rfl
+          have e12 : Ext st st2' := he1.trans (pa'.same.trans k2.ext)
+          have hg2 : (st2'.fr g).gno = (st.fr g).gno := (e12.feq g hch.lt).gno
+          have p2 := ihd rest str g K st2' e2 st3 (by rw [hg2]; exact hrest) (hch.ext e12) h2 hge2
+          have p2' := Post2.pre k2.ext k2.last (by rw [hst2']; exact hJ.setEnd st2 _ none) p2
+          have pq := Post2.seq' pa' p2'
+          rw [final_eq hge2]
+          have hcode : (if got1 = true then 0 else e2) =
+              (if e2 = NOMATCH ∧ (if got1 = true then 0 else e1) = 0 then 0 else e2) := by
+            cases hgot : got1 with
+            | true =>
+              simp only [if_true, and_true]
+              rcases p2.code with h0 | h1
+              · rw [h0]; simp [NOMATCH]
+              · rw [h1]; simp
+            | false =>
+              simp only [Bool.false_eq_true, if_false]
+              rcases hskip.2.2 with h' | h'
+              · rw [h']; simp [NOMATCH]
+              · have := pc'.2 h'.1 h'.2
+                rw [hgot] at this; cases this
+          rw [hcode]
+          refine Post2.pre he1 (by rw [hst1]) (by rw [hst1]; exact hJ.push st fr0 gno hgno0) ?_
+          refine Post2.post ?_ (ext_pop st3 gno _ hgno0) rfl (hJ.pop st3 gno _ hgno0)
+          refine Post2.congr ?_ pq
+          intro j
+          simp [hskip.1]
+      · rw [if_neg hskip] at h
+        simp only [] at h
+        obtain ⟨rfl, rfl⟩ := Prod.mk.inj h
+        have hge1 : Good e1 := good_of_final hg
+        have pa' := pa hge1
+        have pc' := pc hge1
+        rw [final_eq hge1]
+        refine Post2.pre he1 (by rw [hst1]) (by rw [hst1]; exact hJ.push st fr0 gno hgno0) ?_
+        refine Post2.post ?_ (ext_pop st2 gno _ hgno0) rfl (hJ.pop st2 gno _ hgno0)
+        by_cases hmn : mn = 0
+        · -- the skip was not tried: a non-strict search that already succeeded
+          have hne1 : ¬ (e1 = NOMATCH ∨ (e1 = 0 ∧ cx.strict = true)) := fun hh => hskip ⟨hmn, hc0, hh⟩
+          have he10 : e1 = 0 := by
+            rcases pc'.1 with h0 | h1
+            · exact h0
+            · exact absurd (Or.inl h1) hne1
+          have hns : cx.strict = false := by
+            cases hcs : cx.strict with
+            | false => rfl
+            | true => exact absurd (Or.inr ⟨he10, hcs⟩) hne1
+          have hE : (if got1 = true then 0 else e1) = 0 := by cases got1 <;> simp [he10]
+          rw [hE] at pa' ⊢
+          exact Post2.widen pa' hns (fun j hj => Or.inl hj)
+        · refine Post2.congr ?_ pa'
+          intro j
+          simp [hmn]
+    · -- match_group re-entered from match_gend for one more repeat
+      intro str g p K st err st' hlt hne hpar hlt2 halts hnext hchp hend hmx h hg
+      rw [matchGroup_eq, newFrame_re st (st.fr g).alts (st.fr g).min (st.fr g).max (st.fr g).next str g] at h
+      obtain ⟨fr0, hfr0⟩ : ∃ fr0 : Frame, fr0 = { gno := (st.fr g).gno, alts := (st.fr g).alts, min := (st.fr g).min, max := (st.fr g).max, next := (st.fr g).next, start := str, prev := st.stacks[(st.fr g).gno]!, parent := (st.fr g).parent, count := (st.fr g).count + 1, minok := (st.fr g).minok || (st.fr g).end_ == some (st.fr g).start } := ⟨_, rfl⟩
+      rw [← hfr0] at h
+      obtain ⟨st1, hst1⟩ : ∃ s : St, s = { st with frames := st.frames.push fr0, stacks := st.stacks.set! (st.fr g).gno (some st.frames.size) } := ⟨_, rfl⟩
+      rw [← hst1] at h
+      have he1 : Ext st st1 := by rw [hst1]; exact ext_push st fr0 _ hne
+      have hnew : st1.fr st.frames.size = fr0 := by rw [hst1]; exact fr_push_new st _ _
+      have hp : p < st.frames.size := hchp.lt
+      have hfp : st1.fr p = st.fr p := by rw [hst1]; exact fr_push_lt st _ _ p hp
+      have hk0 : kontOf fr0 K = .gend (st.fr g).gno (st.fr g).alts (st.fr g).min (st.fr g).max ((st.fr g).count + 1) str
+          ((st.fr g).minok || (str == (st.fr g).start)) (st.fr g).next K := by
+        rw [hfr0]; simp [kontOf, hend]
+      have hch1 : ChainK g0 st1 st.frames.size (kontOf fr0 K) := by
+        have := ChainK.nest (g0 := g0) (st := st1) (g := st.frames.size) (p := p) (k := K)
+          (by rw [hst1]; simp) (by rw [hnew, hfr0]; exact hne) (by rw [hnew, hfr0]; exact hpar)
+          (by rw [hnew, hfp, hfr0]; exact hlt2) (by rw [hnew, hfr0]; exact halts)
+          (by rw [hnew, hfp, hfr0]; exact hnext) (hchp.ext he1)
+        rw [hnew] at this
+        exact this
+      rw [if_pos hmx] at h
+      cases h1 : altLoop cx f (st.fr g).alts str st.frames.size NOMATCH false st1 with
+      | mk e1 r1 =>
+        obtain ⟨got1, st2⟩ := r1
+        rw [h1] at h
+        have hcnt : fr0.count ≠ 0 := by rw [hfr0]; simp
+        rw [groupTail_noskip cx f fr0 st.frames.size (st.fr g).gno (st.fr g).next str (st.fr g).min e1 got1 st2
+          (Or.inr hcnt)] at h
+        obtain ⟨rfl, rfl⟩ := Prod.mk.inj h
+        have hge : Good e1 := good_of_final hg
+        have hw : ∀ a, a ∈ (st.fr g).alts → WFG (st1.fr st.frames.size).gno a := by
+          intro a ha; rw [hnew, hfr0]; exact halts a ha
+        have pa := iha (st.fr g).alts str st.frames.size _ NOMATCH false st1 e1 got1 st2 hw hch1 (fun hh => by cases hh)
+          (Or.inl rfl) h1 hge
+        rw [hk0] at pa
+        rw [final_eq hge]
+        refine Post2.pre he1 (by rw [hst1]) (by rw [hst1]; exact hJ.push st fr0 _ hne) ?_
+        exact Post2.post pa (ext_pop st2 _ _ hne) rfl (hJ.pop st2 _ _ hne)
     · -- altLoop
       intro alts str id K err0 got st err got' st' hwfa hch hgot herr0 h hg
       cases alts with
@@ -636,7 +922,7 @@ theorem coreR (cx : Cx) (J : St → Prop) (g0 : Nat) (hJ : JOk cx g0 J) : ∀ f 
       cases hch with
       | root h1 h2 => exact absurd h2 hne
       | @nest _ p k h1 h2 h3 h4 h5 h6 h7 =>
-        simp only [matchGend] at h
+        rw [matchGend_eq] at h
         simp only [kontOf]
         by_cases hpr : (str == (st.fr g).start && decide ((st.fr g).count > 0) &&
             decide ((st.fr g).count ≥ (st.fr g).min)) = true
@@ -653,6 +939,385 @@ theorem coreR (cx : Cx) (J : St → Prop) (g0 : Nat) (hJ : JOk cx g0 J) : ∀ f 
             apply hpr
             simp only [Bool.and_eq_true, beq_iff_eq, decide_eq_true_eq]
             exact ⟨⟨hc.1, hc.2.1⟩, hc.2.2⟩
-          sorry
+          obtain ⟨st1, hst1⟩ : ∃ s : St, s = st.setFr g { st.fr g with end_ := some str } := ⟨_, rfl⟩
+          rw [← hst1] at h
+          have k1 : Keeps st st1 := by rw [hst1]; exact keeps_setFr st g _ rfl
+          have fe := k1.feq g
+          have hend1 : (st1.fr g).end_ = some str := by rw [hst1, fr_setFr]; simp [h1]
+          have hJ1 : J st → J st1 := by rw [hst1]; exact hJ.setEnd st g (some str)
+          have hp : p < st.frames.size := h7.lt
+          have fp := k1.feq p
+          -- the two parts of the target
+          let Pmore : Nat → Prop := fun j => ∃ a, a ∈ (st.fr g).alts ∧
+            Sem cx.env a (.gend (st.fr g).gno (st.fr g).alts (st.fr g).min (st.fr g).max ((st.fr g).count + 1) str
+              ((st.fr g).minok || (str == (st.fr g).start)) (st.fr g).next k) str j
+          let Pexit : Nat → Prop := fun j => Sem cx.env (st.fr g).next k str j
+          -- the continuation with the parent's AND-list
+          have hexit : ∀ (s2 : St) (e2 : Nat) (s3 : St), Ext st1 s2 → (J st1 → J s2) → s2.lastEnd = s2.lastEnd →
+              doOps cx f (st.fr g).next str (st.fr g).parent s2 = (e2, s3) → Good e2 →
+              Post2 cx J Pexit false s2 e2 s3 := by
+            intro s2 e2 s3 hes _ _ hd hge2
+            rw [h3] at hd
+            have e02 : Ext st s2 := k1.ext.trans hes
+            exact ihd (st.fr g).next str p k s2 e2 s3 (by rw [(e02.feq p hp).gno]; exact h6) (h7.ext e02) hd hge2
+          by_cases hmore : gendMore (st.fr g) str = true
+          · rw [if_pos hmore] at h
+            obtain ⟨hm1, hm2⟩ := (gendMore_iff _ _).mp hmore
+            cases hg1 : matchGroup cx f (st.fr g).gno (st.fr g).alts (st.fr g).min (st.fr g).max (st.fr g).next str
+                (some g) st1 with
+            | mk e1 st2 =>
+              rw [hg1, gendTail_eq, hmore] at h
+              simp only [Bool.true_and] at h
+              have hg1' : matchGroup cx f (st1.fr g).gno (st1.fr g).alts (st1.fr g).min (st1.fr g).max (st1.fr g).next str
+                  (some g) st1 = (e1, st2) := by rw [fe.gno, fe.alts, fe.min, fe.max, fe.next]; exact hg1
+              by_cases hge1 : Good e1
+              · have pr := ihr str g p k st1 e1 st2 (by rw [k1.size]; exact h1) (by rw [fe.gno]; exact h2)
+                  (by rw [fe.parent]; exact h3) (by rw [fp.gno, fe.gno]; exact h4) (by rw [fe.alts, fe.gno]; exact h5)
+                  (by rw [fp.gno, fe.next]; exact h6) (h7.ext k1.ext) hend1 (by rw [fe.max]; omega) hg1' hge1
+                simp only [fe.gno, fe.alts, fe.min, fe.max, fe.count, fe.minok, fe.start, fe.next] at pr
+                have pr' : Post2 cx J Pmore false st1 e1 st2 := pr
+                have hmoreSem : ∀ j, Pmore j → Sem cx.env [] (.gend (st.fr g).gno (st.fr g).alts (st.fr g).min (st.fr g).max
+                    (st.fr g).count (st.fr g).start (st.fr g).minok (st.fr g).next k) str j := by
+                  rintro j ⟨a, ha, hj⟩
+                  exact Sem.more hnp hm1 hm2 ha hj
+                have hexitSem : ∀ j, gendNoExit (st.fr g) str ≠ true → Pexit j →
+                    Sem cx.env [] (.gend (st.fr g).gno (st.fr g).alts (st.fr g).min (st.fr g).max
+                      (st.fr g).count (st.fr g).start (st.fr g).minok (st.fr g).next k) str j := by
+                  intro j hB hj
+                  have : ¬¬ (str = (st.fr g).start ∨ (st.fr g).minok = true ∨ (st.fr g).min ≤ (st.fr g).count + 1) :=
+                    fun hn => hB ((gendNoExit_iff (st.fr g) str).mpr hn)
+                  exact Sem.exit hnp (Decidable.not_not.mp this) hj
+                have hsplit : ∀ j, Sem cx.env [] (.gend (st.fr g).gno (st.fr g).alts (st.fr g).min (st.fr g).max
+                      (st.fr g).count (st.fr g).start (st.fr g).minok (st.fr g).next k) str j →
+                    Pmore j ∨ (gendNoExit (st.fr g) str ≠ true ∧ Pexit j) := by
+                  intro j hj
+                  rcases (Sem.gend_iff.mp hj).2 with ⟨_, _, a, ha, hs⟩ | ⟨hc, hs⟩
+                  · exact Or.inl ⟨a, ha, hs⟩
+                  · exact Or.inr ⟨fun hB => ((gendNoExit_iff _ _).mp hB) hc, hs⟩
+                by_cases hA : (!(decide (e1 = 0) && cx.strict) && decide (e1 ≠ NOMATCH)) = true
+                · -- non-strict success of the repeat: returned at once
+                  rw [if_pos hA] at h
+                  obtain ⟨rfl, rfl⟩ := Prod.mk.inj h
+                  simp only [Bool.and_eq_true, Bool.not_eq_true', Bool.and_eq_false_iff, decide_eq_false_iff_not,
+                    decide_eq_true_eq] at hA
+                  have he10 : e1 = 0 := pr'.code.resolve_right hA.2
+                  have hns : cx.strict = false := by
+                    rcases hA.1 with h' | h'
+                    · exact absurd he10 h'
+                    · exact h'
+                  subst he10
+                  exact Post2.pre k1.ext k1.last hJ1 (Post2.widen pr' hns hmoreSem)
+                · rw [if_neg hA] at h
+                  have hst : e1 = 0 → cx.strict = true := by
+                    intro he
+                    cases hcs : cx.strict with
+                    | true => rfl
+                    | false => exact absurd (by simp [he, hcs, NOMATCH]) hA
+                  by_cases hB : gendNoExit (st.fr g) str = true
+                  · rw [if_pos hB] at h
+                    obtain ⟨rfl, rfl⟩ := Prod.mk.inj h
+                    refine Post2.pre k1.ext k1.last hJ1 (Post2.congr ?_ pr')
+                    intro j
+                    constructor
+                    · exact hmoreSem j
+                    · intro hj
+                      rcases hsplit j hj with h' | ⟨h', _⟩
+                      · exact h'
+                      · exact absurd hB h'
+                  · rw [if_neg hB] at h
+                    cases hD : doOps cx f (st.fr g).next str (st.fr g).parent st2 with
+                    | mk e2 st3 =>
+                      rw [hD] at h
+                      simp only [] at h
+                      obtain ⟨rfl, rfl⟩ := Prod.mk.inj h
+                      have hge2 : Good e2 := by
+                        constructor
+                        · intro h98; rw [h98] at hg; simp [OUT_OF_BUDGET, NOMATCH] at hg; exact hg.1 (by simp [OUT_OF_BUDGET])
+                        · intro h99; rw [h99] at hg; simp [OUT_OF_FUEL, NOMATCH] at hg; exact hg.2 (by simp [OUT_OF_FUEL])
+                      have p2 := hexit st2 e2 st3 pr'.same pr'.keepJ rfl hD hge2
+                      have pq := Post2.seq' pr' p2
+                      have hcode : (if e2 = NOMATCH ∧ (decide (e1 = 0) && cx.strict) = true then 0 else e2) =
+                          (if e2 = NOMATCH ∧ e1 = 0 then 0 else e2) := by
+                        by_cases he : e1 = 0
+                        · simp [he, hst he]
+                        · simp [he]
+                      rw [hcode]
+                      refine Post2.pre k1.ext k1.last hJ1 (Post2.congr ?_ pq)
+                      intro j
+                      constructor
+                      · rintro (h' | h')
+                        · exact hmoreSem j h'
+                        · exact hexitSem j hB h'
+                      · intro hj
+                        rcases hsplit j hj with h' | ⟨_, h'⟩
+                        · exact Or.inl h'
+                        · exact Or.inr h'
+              · -- the repeat aborted: the abort is what `match_gend` returns
+                exfalso
+                have hne0 : e1 ≠ 0 := by rintro rfl; exact hge1 ⟨by decide, by decide⟩
+                have hne1 : e1 ≠ NOMATCH := by rintro rfl; exact hge1 ⟨by decide, by decide⟩
+                simp [hne0, hne1] at h
+                exact hge1 (h.1 ▸ hg)
+          · rw [if_neg hmore] at h
+            have hmf : gendMore (st.fr g) str = false := by
+              cases hm : gendMore (st.fr g) str with
+              | false => rfl
+              | true => exact absurd hm hmore
+            rw [gendTail_eq, hmf] at h
+            simp only [Bool.false_and, Bool.false_eq_true, if_false, and_false] at h
+            have hnomore : ∀ j, Sem cx.env [] (.gend (st.fr g).gno (st.fr g).alts (st.fr g).min (st.fr g).max
+                  (st.fr g).count (st.fr g).start (st.fr g).minok (st.fr g).next k) str j →
+                gendNoExit (st.fr g) str ≠ true ∧ Pexit j := by
+              intro j hj
+              rcases (Sem.gend_iff.mp hj).2 with ⟨hm1, hm2, _⟩ | ⟨hc, hs⟩
+              · exact absurd ((gendMore_iff _ _).mpr ⟨hm1, hm2⟩) hmore
+              · exact ⟨fun hB => ((gendNoExit_iff _ _).mp hB) hc, hs⟩
+            by_cases hB : gendNoExit (st.fr g) str = true
+            · rw [if_pos hB] at h
+              obtain ⟨rfl, rfl⟩ := Prod.mk.inj h
+              refine Post2.pre k1.ext k1.last hJ1 (Post2.none st1 ?_)
+              intro j hj
+              exact (hnomore j hj).1 hB
+            · rw [if_neg hB] at h
+              cases hD : doOps cx f (st.fr g).next str (st.fr g).parent st1 with
+              | mk e2 st3 =>
+                rw [hD] at h
+                simp only [] at h
+                obtain ⟨rfl, rfl⟩ := Prod.mk.inj h
+                have p2 := hexit st1 e2 st3 (Ext.refl st1) (fun h' => h') rfl hD hg
+                refine Post2.pre k1.ext k1.last hJ1 (Post2.congr ?_ p2)
+                intro j
+                constructor
+                · intro hj
+                  have : ¬¬ (str = (st.fr g).start ∨ (st.fr g).minok = true ∨ (st.fr g).min ≤ (st.fr g).count + 1) :=
+                    fun hn => hB ((gendNoExit_iff (st.fr g) str).mpr hn)
+                  exact Sem.exit hnp (Decidable.not_not.mp this) hj
+                · intro hj; exact (hnomore j hj).2
+
+def AltsSem (e : Env) (alts : List (List COp)) (str j : Nat) : Prop := ∃ a, a ∈ alts ∧ Sem e a .root str j
+
+structure RootPostR (cx : Cx) (P : Nat → Prop) (str : Nat) (st : St) (err : Nat) (st' : St) : Prop where
+  code : err = 0 ∨ err = NOMATCH
+  ok : err = 0 ↔ ∃ j, P j
+  upper : cx.strict = true → ∀ j, P j → ∃ le', st'.lastEnd = some le' ∧ j ≤ le'
+  attained : st'.lastEnd = st.lastEnd ∨ ∃ j, P j ∧ st'.lastEnd = some j
+  ssz : st'.stacks.size = st.stacks.size
+  psz : st'.pm.size = st.pm.size
+  pm0 : 1 ≤ cx.nmatch → 0 < st.stacks.size → 0 < st.pm.size → st.lastEnd = none →
+    ∀ le, st'.lastEnd = some le → st'.pm[0]! = ((str : Int), (le : Int))
+
+theorem root_specR (cx : Cx) (f : Nat) (alts : List (List COp)) (str : Nat) (st : St)
+    (err : Nat) (st' : St) (hwf : ∀ a, a ∈ alts → WFG 0 a)
+    (h : matchGroup cx f 0 alts 1 1 [] str none st = (err, st')) (hg : Good err) :
+    RootPostR cx (AltsSem cx.env alts str) str st err st' := by
+  cases f with
+  | zero =>
+    simp only [matchGroup] at h
+    obtain ⟨rfl, _⟩ := Prod.mk.inj h
+    exact absurd rfl hg.2
+  | succ f =>
+    simp only [matchGroup] at h
+    obtain ⟨fr0, hfr0⟩ : ∃ fr0 : Frame, fr0 = { gno := 0, alts := alts, min := 1, max := 1, next := [], start := str, prev := st.stacks[0]!, parent := none } := ⟨_, rfl⟩
+    rw [← hfr0] at h
+    obtain ⟨st1, hst1⟩ : ∃ s : St, s = { st with frames := st.frames.push fr0, stacks := st.stacks.set! 0 (some st.frames.size) } := ⟨_, rfl⟩
+    rw [← hst1] at h
+    have hnew : st1.fr st.frames.size = fr0 := by rw [hst1]; exact fr_push_new st _ _
+    rw [hfr0] at hnew
+    have hlast1 : st1.lastEnd = st.lastEnd := by rw [hst1]
+    have hch1 : ChainK st.frames.size st1 st.frames.size .root :=
+      ChainK.root (by rw [hst1]; simp) (by rw [hnew])
+    obtain ⟨J, hJdef⟩ : ∃ J : St → Prop, J = fun s => (1 ≤ cx.nmatch ∧ 0 < st.stacks.size ∧ 0 < st.pm.size) →
+        RootInv st.frames.size str st.stacks.size st.pm.size s := ⟨_, rfl⟩
+    have hJ : JOk cx st.frames.size J := by
+      rw [hJdef]; exact jOk_rootInv cx _ _ _ _ _ (fun hc => hc)
+    cases h1 : altLoop cx f alts str st.frames.size NOMATCH false st1 with
+    | mk e1 r1 =>
+      obtain ⟨got1, st2⟩ := r1
+      rw [h1] at h
+      simp only [Nat.lt_irrefl, Nat.zero_lt_one, if_true, Nat.one_ne_zero, false_and, if_false] at h
+      obtain ⟨rfl, rfl⟩ := Prod.mk.inj h
+      have hge : Good e1 := good_of_final hg
+      have p := (coreR cx J st.frames.size hJ f).2.2.2.2.2.1 alts str st.frames.size .root NOMATCH false st1 e1 got1 st2
+        (by intro a ha; rw [hnew]; exact hwf a ha) hch1 (fun hh => by cases hh) (Or.inl rfl) h1 hge
+      rw [final_eq hge]
+      have hP : ∀ j, (∃ a, a ∈ alts ∧ Sem cx.env a .root str j) ↔ AltsSem cx.env alts str j := by
+        intro j; simp only [AltsSem]
+      refine ⟨p.code, ?_, ?_, ?_, ?_, ?_, ?_⟩
+      · rw [p.ok]; simp only [Bool.false_eq_true, false_or]
+        constructor
+        · rintro ⟨j, hj⟩; exact ⟨j, (hP j).mp hj⟩
+        · rintro ⟨j, hj⟩; exact ⟨j, (hP j).mpr hj⟩
+      · intro hs j hj; exact p.upper hs j ((hP j).mpr hj)
+      · rcases p.attained with ha | ⟨j, hj, ha⟩
+        · exact Or.inl (ha.trans hlast1)
+        · exact Or.inr ⟨j, (hP j).mp hj, ha⟩
+      · show (st2.stacks.set! 0 _).size = _
+        simp only [Array.set!_eq_setIfInBounds, Array.size_setIfInBounds]
+        rw [p.same.ssz, hst1]; simp
+      · show st2.pm.size = _
+        rw [p.same.psize, hst1]
+      · intro hc1 hc2 hc3 hl le hle
+        have hJ1 : J st1 := by
+          rw [hJdef]; intro _
+          refine ⟨by rw [hst1]; simp, by rw [hst1]; simp, by rw [hst1], by rw [hst1]; simp [hc2],
+            by rw [hnew], by rw [hnew], by rw [hnew], ?_⟩
+          intro le' hle'
+          rw [hlast1, hl] at hle'; cases hle'
+        have hJ2 := p.keepJ hJ1
+        rw [hJdef] at hJ2
+        exact (hJ2 ⟨hc1, hc2, hc3⟩).pm0 le hle
+
+theorem startLoop_specR (cx : Cx) (alts : List (List COp)) (hwf : ∀ a, a ∈ alts → WFG 0 a) (fuel : Nat) :
+    ∀ (k str : Nat) (st : St) (rc pos : Nat) (st' : St),
+    st.lastEnd = none → str ≤ cx.env.s.size → startLoop cx alts fuel k str st = (rc, pos, st') → Good rc →
+    (rc = 0 ∧ str ≤ pos ∧ pos ≤ cx.env.s.size ∧ (∃ j, AltsSem cx.env alts pos j) ∧
+        (∀ i, str ≤ i → i < pos → ∀ j, ¬ AltsSem cx.env alts i j) ∧
+        (cx.strict = true → ∃ le, st'.lastEnd = some le ∧ AltsSem cx.env alts pos le ∧
+            ∀ j, AltsSem cx.env alts pos j → j ≤ le) ∧
+        st'.pm.size = st.pm.size ∧
+        (1 ≤ cx.nmatch → 0 < st.stacks.size → 0 < st.pm.size →
+            ∀ le, st'.lastEnd = some le → st'.pm[0]! = ((pos : Int), (le : Int)))) ∨
+    (rc = NOMATCH ∧ ∀ i, str ≤ i → i < str + k → i ≤ cx.env.s.size → ∀ j, ¬ AltsSem cx.env alts i j) := by
+  intro k
+  induction k with
+  | zero =>
+    intro str st rc pos st' _ _ h _
+    simp only [startLoop] at h
+    obtain ⟨rfl, _⟩ := Prod.mk.inj h
+    exact Or.inr ⟨rfl, fun i h1 h2 => by omega⟩
+  | succ k ih =>
+    intro str st rc pos st' hl hstr h hg
+    simp only [startLoop] at h
+    cases h1 : matchGroup cx fuel 0 alts 1 1 [] str none st with
+    | mk e1 st1 =>
+      rw [h1] at h
+      simp only [] at h
+      by_cases hc : e1 = NOMATCH ∧ str < cx.env.s.size
+      · rw [if_pos hc] at h
+        have p := root_specR cx fuel alts str st e1 st1 hwf h1 (by rw [hc.1]; exact ⟨by decide, by decide⟩)
+        have hno : ∀ j, ¬ AltsSem cx.env alts str j := by
+          intro j hj
+          have := p.ok.mpr ⟨j, hj⟩
+          rw [hc.1] at this
+          exact absurd this (by decide)
+        have hl1 : st1.lastEnd = none := by
+          rcases p.attained with ha | ⟨j, hj, _⟩
+          · exact ha.trans hl
+          · exact absurd hj (hno j)
+        rcases ih (str + 1) st1 rc pos st' hl1 (by omega) h hg with
+          ⟨r0, hp, hpb, hf, hleft, hlong, hps, hpm⟩ | ⟨r1, hnone⟩
+        · refine Or.inl ⟨r0, by omega, hpb, hf, ?_, hlong, hps.trans p.psz, ?_⟩
+          · intro i hi1 hi2 j
+            by_cases his : i = str
+            · subst his; exact hno j
+            · exact hleft i (by omega) hi2 j
+          · intro c1 c2 c3
+            exact hpm c1 (by rw [p.ssz]; exact c2) (by rw [p.psz]; exact c3)
+        · refine Or.inr ⟨r1, ?_⟩
+          intro i hi1 hi2 hi3 j
+          by_cases his : i = str
+          · subst his; exact hno j
+          · exact hnone i (by omega) (by omega) hi3 j
+      · rw [if_neg hc] at h
+        obtain ⟨rfl, h2⟩ := Prod.mk.inj h
+        obtain ⟨rfl, rfl⟩ := Prod.mk.inj h2
+        have p := root_specR cx fuel alts str st e1 st1 hwf h1 hg
+        rcases p.code with r0 | r1
+        · refine Or.inl ⟨r0, Nat.le_refl _, hstr, p.ok.mp r0, fun i h1 h2 => by omega, ?_, p.psz,
+            fun c1 c2 c3 => p.pm0 c1 c2 c3 hl⟩
+          intro hs
+          obtain ⟨j0, hj0⟩ := p.ok.mp r0
+          obtain ⟨le, hle, _⟩ := p.upper hs j0 hj0
+          rcases p.attained with ha | ⟨j, hj, ha⟩
+          · rw [ha, hl] at hle; cases hle
+          · refine ⟨j, ha, hj, ?_⟩
+            intro j' hj'
+            obtain ⟨le', hle', hle''⟩ := p.upper hs j' hj'
+            rw [ha] at hle'
+            cases hle'
+            exact hle''
+        · refine Or.inr ⟨r1, ?_⟩
+          intro i hi1 hi2 hi3 j hj
+          have hsz : ¬ str < cx.env.s.size := fun hh => hc ⟨r1, hh⟩
+          have : i = str := by omega
+          subst this
+          have := p.ok.mpr ⟨j, hj⟩
+          rw [r1] at this
+          exact absurd this (by decide)
+
+/-- leftmost-longest with respect to `Sem` -/
+structure SemLL (e : Env) (alts : List (List COp)) (strict : Bool) (pos : Nat) (last : Option Nat) : Prop where
+  inb : pos ≤ e.s.size
+  found : ∃ j, AltsSem e alts pos j
+  leftmost : ∀ i, i < pos → ∀ j, ¬ AltsSem e alts i j
+  longest : strict = true → ∃ le, last = some le ∧ AltsSem e alts pos le ∧ ∀ j, AltsSem e alts pos j → j ≤ le
+
+theorem cExec_specR (alts : List (List COp)) (hwf : ∀ a, a ∈ alts → WFG 0 a) (nsub : Nat) (nosub : Bool) (e : Env)
+    (nmatch budget fuel : Nat) (hg : Good (cExec alts nsub nosub e nmatch budget fuel).rc) :
+    let res := cExec alts nsub nosub e nmatch budget fuel
+    (res.rc = 0 ∧ SemLL e alts (!nosub && decide (nmatch > 0)) res.start res.last ∧
+      ((!nosub && decide (nmatch > 0)) = true → ∀ le, res.last = some le →
+        res.pm.head? = some ((res.start : Int), (le : Int)))) ∨
+    (res.rc = NOMATCH ∧ ∀ i, i ≤ e.s.size → ∀ j, ¬ AltsSem e alts i j) := by
+  intro res
+  obtain ⟨cx, hcx⟩ : ∃ cx : Cx, cx = mkCx e nsub nosub nmatch := ⟨_, rfl⟩
+  have hce : cx.env = e := by rw [hcx]; rfl
+  have hcs : cx.strict = (!nosub && decide (nmatch > 0)) := by
+    rw [hcx]; simp only [mkCx]
+    cases nosub <;> simp
+    split <;> simp <;> omega
+  obtain ⟨st0, hst0⟩ : ∃ st0 : St, st0 = initSt nsub nosub nmatch budget := ⟨_, rfl⟩
+  have hl0 : st0.lastEnd = none := by rw [hst0]; rfl
+  cases hrun : startLoop cx alts fuel (e.s.size + 1) 0 st0 with
+  | mk rc r2 =>
+    obtain ⟨pos, st'⟩ := r2
+    have hres : res = { rc := rc, pm := st'.pm.toList, start := pos, last := st'.lastEnd, stepsLeft := st'.budget } := by
+      show cExec alts nsub nosub e nmatch budget fuel = _
+      unfold cExec
+      rw [← hcx, ← hst0, hrun]
+    have hg' : Good rc := by
+      have : res.rc = rc := by rw [hres]
+      rw [← this]; exact hg
+    rcases startLoop_specR cx alts hwf fuel (e.s.size + 1) 0 st0 rc pos st' hl0 (Nat.zero_le _) hrun hg' with
+      ⟨r0, _, hpb, hf, hleft, hlong, hps, hpm⟩ | ⟨r1, hnone⟩
+    · left
+      rw [hres]
+      refine ⟨r0, ⟨?_, ?_, ?_, ?_⟩, ?_⟩
+      · rw [← hce]; exact hpb
+      · rw [← hce]; exact hf
+      · intro i hi j; rw [← hce]; exact hleft i (Nat.zero_le _) hi j
+      · intro hs
+        rw [← hcs] at hs
+        obtain ⟨le, h1, h2, h3⟩ := hlong hs
+        rw [hce] at h2 h3
+        exact ⟨le, h1, h2, h3⟩
+      · intro hs le hle
+        simp only [Bool.and_eq_true, Bool.not_eq_true', decide_eq_true_eq] at hs
+        obtain ⟨hns, hnm⟩ := hs
+        have hc1 : 1 ≤ cx.nmatch := by
+          rw [hcx]; simp only [mkCx, hns]
+          simp
+          split <;> omega
+        have hst : 0 < st0.stacks.size := by rw [hst0]; simp [initSt]
+        have hpz : 0 < st0.pm.size := by rw [hst0]; simp [initSt, hns]; exact hnm
+        have h0 := hpm hc1 hst hpz le hle
+        have hsz' : 0 < st'.pm.size := by rw [hps]; exact hpz
+        show st'.pm.toList.head? = _
+        rw [← h0]
+        cases hpl : st'.pm.toList with
+        | nil =>
+          have : st'.pm.size = 0 := by simpa using congrArg List.length hpl
+          omega
+        | cons x xs =>
+          simp only [List.head?_cons, Option.some.injEq]
+          have : st'.pm[0]! = st'.pm.toList[0]! := by simp [Array.getElem!_eq_getD, Array.getD_eq_getD_getElem?]
+          rw [this, hpl]; rfl
+    · right
+      rw [hres]
+      refine ⟨r1, ?_⟩
+      intro i hi j
+      rw [← hce]
+      exact hnone i (Nat.zero_le _) (by omega) (by rw [hce]; exact hi) j
+
 
 end Usual.C04.CM
